@@ -29,6 +29,14 @@ type Tape struct {
 	isRep  bool
 	pos    int
 	Rec    []Draw
+	// zeroRest: after the forced prefix every draw is 0 (systematic enumeration)
+	zeroRest bool
+}
+
+// NewEnumTape returns a tape that serves the forced prefix and then zeros; the
+// driver's depth-first enumeration increments the last incrementable draw.
+func NewEnumTape(forced []int) *Tape {
+	return &Tape{forced: forced, zeroRest: true}
 }
 
 func splitmix(x *uint64) uint64 {
@@ -82,7 +90,7 @@ func (t *Tape) Choose(label string, n int) int {
 			v = 0
 		}
 		t.fpos++
-	} else if n > 1 {
+	} else if n > 1 && !t.zeroRest {
 		v = int(splitmix(&t.state) % uint64(n))
 	}
 	t.Rec = append(t.Rec, Draw{label, n, v})
